@@ -349,6 +349,25 @@ def r3_halton(ctx, repo):
     ctx.assume("primality of the sieve _primes_from_2_to and the equivalence recurrence = radical inverse are a theorem/pattern, not re-proved")
 
 
+def _perm_domain(T, st, samples):
+    """is the argument of the permutation draw 0..N-1 (as a range, an arange, a list or array of it, or the count N)?
+    True / False (a range of another length) / None"""
+    if not st.value.args:
+        return None
+    a = T.expand(st.value.args[0], at=st)
+    while isinstance(a, ast.Call) and (access_path(a.func) or "").split(".")[-1] in ("asarray", "array", "list", "tuple", "copy") and len(a.args) >= 1:
+        a = a.args[0]
+    t = text(a)
+    if t in ("range(%s)" % samples, "range(0, %s)" % samples, samples, "np.arange(%s)" % samples, "numpy.arange(%s)" % samples, "np.arange(0, %s)" % samples):
+        return True
+    if isinstance(a, ast.Call) and (access_path(a.func) or "").split(".")[-1] in ("range", "arange") and a.args and not a.keywords \
+            and all(isinstance(x, (ast.Name, ast.Constant, ast.BinOp)) for x in a.args):
+        return False
+    if isinstance(a, (ast.Constant,)) or (isinstance(a, ast.Name) and a.id != samples and T.origin(a.id, st) is None and a.id in [x.arg for x in T.fn.args.args]):
+        return False
+    return None
+
+
 def r4_layout(ctx, repo):
     """the design handed out has one row per sample.  A transpose decided by comparing the SHAPE with (samples, n) cannot
     tell the two layouts apart when samples == n: if a builder produces the factor-major layout, the square design is
@@ -502,8 +521,10 @@ def r4_lhs(ctx, repo):
                 problems.append("rows are not reordered by a permutation of range(N) drawn inside the column loop (one draw at line %d serves every column)" % drawn_outside[0].lineno)
             else:
                 unknown.append("permutation draw not recognised in %s" % text(vx))
-        elif text(order[0].value.args[0]) not in ("range(%s)" % samples, samples):
+        elif _perm_domain(T, order[0], samples) is False:
             problems.append("rows are not reordered by a permutation of range(N) drawn inside the column loop")
+        elif _perm_domain(T, order[0], samples) is None:
+            unknown.append("what %s permutes is not recognised" % text(order[0].value))
         else:
             ov = access_path(order[0].targets[0])
             if text(s_.value) != "%s[%s, %s]" % (strat_var, ov, j) or not text(s_.targets[0]).endswith("[:, %s]" % j):
